@@ -330,8 +330,8 @@ def obligations(tier, seed):
         if tier == "quick":
             p["sis"] = [0, 2, 5, 10, 13]
         obs.append({"name": "step-fields/kind=%d" % k, "fn": "ob_step", "P": p, "timeout": T})
-        docs = [0] if tier == "quick" else [0, 1, 3, 5]
-        sis = ([2, 5, 13] if tier == "quick" else list(range(14))) if k < 2 else [0]
+        docs = [0] if tier == "quick" else [0, 1]
+        sis = ([2, 5, 13] if tier == "quick" else [0, 2, 5, 7, 10, 13]) if k < 2 else [0]
         for di in docs:
             for si in sis:
                 if k == 1 and tier == "quick" and si != 5:
@@ -344,7 +344,7 @@ def obligations(tier, seed):
                             continue
                         q["a"] = aa
                         if k == 1:
-                            for bb in ([size, size - 1] if tier == "quick" else range(max(aa, 0), size + 1)):
+                            for bb in ([size, size - 1] if tier == "quick" else [size, size - 1, max(aa, 0) + 2]):
                                 obs.append({"name": "step-effect/kind=1/list#%d/s%d/a=%s/b=%d" % (di, si, aa, bb), "fn": "ob_step",
                                             "P": dict(q, b=bb), "timeout": T})
                             continue
